@@ -51,6 +51,8 @@ def small_scenarios(pid):
                         "R tm 1 0 1 submit 2 1", "R tm 2 0 1 set_flag 1", "R wi 2 2 1 pool_put 1"]
     S["put-early"] = ["O pool 1", "O wi 1", "O wi 2", "S pool_create 1 2", "S submit 1 1", "S submit 2 1", "S pool_put 1"]
     S["put-empty"] = ["O pool 1", "S pool_create 1 2", "S pool_put 1"]
+    S["null-chain"] = ["O wi 1", "O wi 2", "O wi 3", "O wi 4", "S submit 1 0", "R wi 1 2 1 submit 2 0", "R wi 2 2 1 submit 3 0",
+                       "R wi 3 2 1 submit 4 0", "R wi 3 2 1 submit 1 0"]
     S["null-pool"] = ["O wi 1", "O wi 2", "S submit 1 0", "S submit 2 0", "R wi 1 2 1 submit 1 0"]
     if pid == "C13":
         for nm, body in (("ret", ["T 1 yield"]), ("init-deinit", ["T 1 iv_init", "T 1 iv_deinit"]), ("init-only", ["T 1 iv_init"]),
